@@ -54,6 +54,9 @@ except (OSError, ValueError):
     pass
 # changes kept although the broken property's check does not (and must not) fire on them
 NOT_A_VIOLATION = {
+ "C09-r6m1": "Not detected, by design: remove_unchecked reads the removed element and the tail through as_ptr() (a shared reborrow) and writes through as_mut_ptr(). Returned values, "
+             "order and drop counts are unchanged natively and under Miri/Tree Borrows; only the experimental Stacked Borrows model objects, as it already does to the pinned tree's "
+             "chunks_from_slice_mut. Every clause of C09 holds for the changed code; the thorough tier prints the Stacked Borrows report as advisory.",
  "C10-r5m1": "Not detected, by design: the remainder of chunks_from_slice is derived from the end of the chunk slice (as_ptr_range().end) instead of from the source slice. "
              "Counts, lengths, addresses and contents are unchanged; native runs, the const evaluator and Miri under Tree Borrows accept it. Only the experimental Stacked "
              "Borrows model objects (the remainder's tag is a child of the chunk slice's), and the pinned tree's chunks_from_slice_mut already fails that model. C10 (same "
